@@ -4,7 +4,7 @@ CONSTANTS
   SortedLen = 0
   NoForeignLen = 3
   RepLen = 2
-  OtherLen = 2
+  OtherLen = 1
   WrapLen = 2
   ShareLen = 2
   MatchKey = "annotation"
